@@ -387,6 +387,10 @@ func (pr *plasmaRun) ledgerScan() {
 			if err := definition.ABIPlasma.UnpackMethod(ben, definition.FuseMethodName, send.Data); err != nil {
 				ben = nil
 			}
+			benName := "?"
+			if ben != nil {
+				benName = addrName(*ben)
+			}
 			isQsr := send.TokenStandard == types.QsrTokenStandard
 			enough := send.Amount != nil && send.Amount.Cmp(big.NewInt(10*g.Zexp)) >= 0
 			c.Hit(fmt.Sprintf("ledger-fuse:%s:%s:%s", map[bool]string{true: "qsr", false: "other-token"}[isQsr], map[bool]string{true: "at-least-min", false: "below-min"}[enough], map[bool]string{true: "refunded", false: "kept"}[refund]))
@@ -397,8 +401,8 @@ func (pr *plasmaRun) ledgerScan() {
 				continue // nothing sent, nothing to give back, nothing credited
 			}
 			if !isQsr || !enough || ben == nil {
-				pr.fail("C12: the plasma contract kept %s %s sent with the Fuse call %s/%d (beneficiary %v) instead of refunding it: plasma is backed by fused QSR only (at least 10 QSR per call); the receive block %d has %d descendant(s)",
-					amt(send.Amount), tokName(send.TokenStandard), addrName(send.Address), send.Height, ben, h, len(r.DescendantBlocks))
+				pr.fail("C12: the plasma contract kept %s %s sent with the Fuse call %s/%d (beneficiary %s) instead of refunding it: plasma is backed by fused QSR only (at least 10 QSR per call); the receive block %d has %d descendant(s)",
+					amt(send.Amount), tokName(send.TokenStandard), addrName(send.Address), send.Height, benName, h, len(r.DescendantBlocks))
 				continue
 			}
 			l.entries[send.Hash] = fuseEntry{*ben, new(big.Int).Set(send.Amount)}
